@@ -1,5 +1,12 @@
-import corechecks
+"""Property id -> check function. Modules are optional so that components can be added independently."""
+import importlib
 
-CHECKS = {
-    "C06": corechecks.check_C06,
-}
+CHECKS = {}
+for _mod in ("corechecks", "datachecks", "textchecks", "disasmchecks", "profilerchecks", "loaderchecks"):
+    try:
+        _m = importlib.import_module(_mod)
+    except ModuleNotFoundError as e:
+        if e.name != _mod:
+            raise
+        continue
+    CHECKS.update(getattr(_m, "CHECKS", {}))
